@@ -1632,9 +1632,11 @@ where
 {
     /// Cause probe helper: reports through which path a key is lost to capacity pressure
     /// (`loss.<path>`), and whether at that moment the deques hold an entry that only
-    /// *looks* resident: one whose incarnation has left the map (`lossz.gone.<path>`) or a
+    /// *looks* resident: one whose incarnation has left the map (`lossz.gone.<path>`), a
     /// dead (expired / invalidated) one behind a live one, out of the purge's reach
-    /// (`lossz.dead.<path>`).
+    /// (`lossz.dead.<path>`), or one that is accounted with more weight than its latest
+    /// value has because its shrinking update is still queued (also `lossz.gone.<path>`:
+    /// weight that has already left the map).
     fn verif_loss(
         &self,
         path: (&'static str, &'static str, &'static str),
@@ -1655,7 +1657,8 @@ where
             let node = unsafe { n.as_ref() };
             let elem = &node.element;
             if elem.hash() == hash {
-                // the node of the key that is being lost itself
+                // the node of the key that is being lost itself (live until now)
+                live_seen = true;
                 continue;
             }
             let is_gone = !self
@@ -1663,7 +1666,8 @@ where
                 .get(elem.key())
                 .map(|e| std::ptr::eq(&**e.entry_info(), elem.entry_info()))
                 .unwrap_or(false);
-            if is_gone {
+            let info = elem.entry_info();
+            if is_gone || (info.is_dirty() && info.accounted_weight() > info.policy_weight()) {
                 gone = true;
             } else if is_expired_entry_ao(tti, va, node, now) {
                 dead |= live_seen;
